@@ -27,6 +27,10 @@ class C10Merge1D(Harness):
                     if tier == "quick" and g > 0 and M > 3:
                         continue
                     yield f"amount-M{M}-gap{g}", dict(M=M, mode="amount", inplace=False, axis=None, gap=g, kind="real")
+                    if M <= 3:
+                        # a genuine gap that is small relative to the edges (inside is_consecutive's relative tolerance)
+                        yield f"amount-M{M}-smallgap{g}", dict(M=M, mode="amount", inplace=False, axis=None, gap=g, kind="real", small=True)
+                        yield f"minfreq-M{M}-smallgap{g}", dict(M=M, mode="minfreq", inplace=False, axis=None, gap=g, kind="real", small=True)
             yield f"fraction-M{M}", dict(M=M, mode="fraction", inplace=False, axis=0, gap=None, kind="int")
             if M in (2, 3):
                 # contents replaced through the public `frequencies` setter (floats into a histogram created with integer contents)
@@ -48,7 +52,13 @@ class C10Merge1D(Harness):
             x["l"], x["r"] = cx.reals("l", M), cx.reals("r", M)
             if cx.sym:
                 L, R = [cx.t(i) for i in x["l"]], [cx.t(i) for i in x["r"]]
-                cx.assume(rising_pairs(L, R), tolerance_band(L, R))
+                if p.get("small"):
+                    g = p["gap"]
+                    ar = z3.If(R[g] >= 0, R[g], -R[g])
+                    # |edge| >= 1 and 2.5e-6 |edge| <= gap <= 5e-6 |edge|: well inside the tolerance 1e-5 |edge| of is_consecutive, far above an ulp
+                    cx.assume(rising_pairs(L, R), ar >= 1, L[g + 1] - R[g] >= ar / 400000, L[g + 1] - R[g] <= ar / 200000)
+                else:
+                    cx.assume(rising_pairs(L, R), tolerance_band(L, R))
                 for j in range(M - 1):
                     cx.assume(L[j + 1] > R[j] if j == p["gap"] else L[j + 1] == R[j])
         if p["mode"] == "amount":
@@ -58,6 +68,13 @@ class C10Merge1D(Harness):
             if cx.sym:
                 cx.assume(x["t"] > 0)
         return x
+
+    def witness_hints(self, cx, p, x):
+        if not p.get("small"):
+            return []
+        g = p["gap"]
+        # edges on integers around 2^20 with a gap of 4 (relative size 3.8e-6): exactly representable
+        return [[cx.t(x["r"][g]) == 2 ** 20, cx.t(x["l"][g + 1]) == 2 ** 20 + 4] + [z3.ToReal(z3.ToInt(cx.t(v))) == cx.t(v) for v in list(x["l"]) + list(x["r"])]]
 
     def drive(self, E, p, x):
         np = E.np
@@ -113,6 +130,12 @@ class C10Merge1D(Harness):
                     yield "unchanged_after_refusal", unchanged(obs["after"])
                 return
             yield "gap_crossing_refused", z3.Not(crosses)
+        elif p["gap"] is not None:
+            # min_frequency over gapped bins: a refusal (the threshold would need a run across the gap) or a result none of whose bins spans the gap
+            if raised is not None:
+                yield "refusal_kind", raised.name == "ValueError"
+                yield "unchanged_after_refusal", unchanged(obs["after"])
+                return
         else:
             yield "no_exception", raised is None
             if raised is not None:
@@ -141,6 +164,9 @@ class C10Merge1D(Harness):
             yield f"err2_is_union_sum[{k}]", cx.eq(res["err2"][k], zsum(z3.If(inside[j], q[j], 0) for j in range(M)))
             if k:
                 yield f"rising[{k}]", nl[k] >= nr[k - 1]
+        if p["gap"] is not None:
+            g = p["gap"]
+            yield "no_bin_across_gap", z3.And([z3.Not(z3.And(nl[k] <= R[g], nr[k] >= L[g + 1])) for k in range(Mn)] + [z3.BoolVal(True)])
         yield "total_conserved", cx.eq(res["total"], zsum(f))
         if not p.get("via_setter"):
             yield "missed_conserved", z3.And(cx.eq(res["under"], cx.t(x["u"])), cx.eq(res["over"], cx.t(x["o"])))
